@@ -1390,17 +1390,48 @@ func (c *Ctx) rulesC05topo() {
 		if topFunc(f).Pkg == nil || relPkg(topFunc(f).Pkg.Pkg.Path()) != pm {
 			continue
 		}
+		// a function together with the private helpers it was split into; the
+		// helpers are not units of their own
+		if f.Parent() == nil {
+			if _, host := c.hostSites(f, true); host != nil {
+				continue
+			}
+		}
+		unit := []*ssa.Function{f}
+		if f.Parent() == nil {
+			unit = c.hostedFns(f)
+		}
+		si := func(x ssa.Instruction) ssa.Instruction {
+			if f.Parent() != nil || x.Parent() == f {
+				return x
+			}
+			return c.standIn(f, x)
+		}
 		var stores []ssa.Instruction
-		for _, w := range writesOfFieldIn(f, fS) {
-			if w.Kind == "assign" {
-				stores = append(stores, w.Instr)
+		var sites []ssa.CallInstruction
+		var verifies []ssa.Instruction
+		for _, g := range unit {
+			for _, w := range writesOfFieldIn(g, fS) {
+				if w.Kind == "assign" {
+					if x := si(w.Instr); x != nil {
+						stores = append(stores, x)
+					}
+				}
+			}
+			for _, s := range append(c.sitesIn(g, "iface:RelationsResolver.NewSchema"), c.sitesIn(g, pm+":DefaultRelationsResolver.NewSchema")...) {
+				if x, ok := si(s).(ssa.CallInstruction); ok {
+					sites = append(sites, x)
+				}
+			}
+			for _, v := range c.sitesIn(g, pm+":Machine.verifyStates") {
+				if x := si(v); x != nil {
+					verifies = append(verifies, x)
+				}
 			}
 		}
 		if len(stores) == 0 {
 			continue
 		}
-		sites := c.sitesIn(f, "iface:RelationsResolver.NewSchema")
-		sites = append(sites, c.sitesIn(f, pm+":DefaultRelationsResolver.NewSchema")...)
 		if len(sites) == 0 {
 			// a struct literal / constructor helper without a resolver yet is fine only if the
 			// function is not an API entry (e.g. composite literal in New before resolver exists)
@@ -1408,9 +1439,7 @@ func (c *Ctx) rulesC05topo() {
 		}
 		n++
 		pre := append([]ssa.Instruction{}, stores...)
-		for _, v := range c.sitesIn(f, pm+":Machine.verifyStates") {
-			pre = append(pre, v)
-		}
+		pre = append(pre, verifies...)
 		good, why := true, ""
 		for _, p := range pre {
 			after := false
